@@ -8,36 +8,12 @@ import Glom.Generated.C13Facts
 -/
 namespace Glom.C13
 
-def hOfName (s : String) : Handler := if s == "False" then none else some s
-
-/-- a hierarchy given by finite tables (what Python's `__mro__`, `isinstance`, `issubclass` and the
-    auto-discovery functions answered), taken literally: `issubclass(C, C)` is *not* assumed
-    (it is False for glom's `_AbstractIterable`, whose `__subclasshook__` answers for itself) -/
-structure HierTab where
-  top  : Ty
-  mro  : List (Ty × List Ty)
-  inst : List (Ty × Ty)
-  sub  : List (Ty × Ty)
-  auto : List (String × List (Ty × String))
-  deriving Repr
-
-def HierTab.toHier (T : HierTab) : Hier where
-  mro t := (odGet t T.mro).getD (if t == T.top then [t] else [t, T.top])
-  inst t c := T.inst.contains (t, c)
-  sub c d := T.sub.contains (c, d)
-  auto f t := match odGet f T.auto with
-    | some rows => (match odGet t rows with
-      | some n => hOfName n
-      | none => none)
-    | none => none
-
 def genSetup : Setup where
   builtinOps := Generated.c13BuiltinOps.map (fun x => ⟨x.1, x.2.1, x.2.2⟩)
   defaults := Generated.c13Defaults.map (fun x => ⟨x.1, x.2.1, x.2.2.map (fun p => (p.1, hOfName p.2))⟩)
   moduleOps := Generated.c13ModuleOps.map (fun x => ⟨x.1, x.2.1, x.2.2⟩)
 
 def builtinTab : HierTab where
-  top := "object"
   mro := Generated.c13Mro
   inst := Generated.c13Inst
   sub := Generated.c13Sub
